@@ -1230,22 +1230,55 @@ func c18Udp4pkt(c *Ctx, f *ssa.Function) {
 		ok = ok && strings.Contains(s, b)
 		r.Check(ok, "C18-K6", "nclient4.pseudoHeaderchecksum: sums source address, destination address and {0, protocol}", c.P.pos(ph.Pos()), "symx", "pseudo header checksum computes "+s)
 	}
+	// census of frame builders: the header encoders ipv4.encode / udp.encode are called only by the reviewed builder (and
+	// the helpers spliced into it) — any other caller assembles frames by a layout nobody compared with the RFC
+	{
+		ok := map[*ssa.Function]bool{}
+		for _, g := range marshalHelpers(c, f) {
+			ok[g] = true
+		}
+		nCallers := 0
+		for _, g := range c.P.ModuleFuncs() {
+			if pkgPathOf(g) != nc4 || g.Blocks == nil {
+				continue
+			}
+			allInstrs(g, func(in ssa.Instruction) {
+				cl, isCall := in.(*ssa.Call)
+				if !isCall || cl.Call.StaticCallee() == nil {
+					return
+				}
+				n := shortName(cl.Call.StaticCallee())
+				if n != "(dhcpv4/nclient4.ipv4).encode" && n != "(dhcpv4/nclient4.udp).encode" {
+					return
+				}
+				nCallers++
+				r.Check(ok[g], "C18-K5", "nclient4: "+n+" is called only by the reviewed frame builder udp4pkt (caller "+shortName(g)+")", c.P.ipos(cl), "census of callers of the header encoders",
+					shortName(g)+" assembles IPv4/UDP headers outside udp4pkt: a second frame builder whose layout, checksums and buffer handling are not the reviewed ones")
+			})
+		}
+		r.Count("C18-K5-encoder-callers", nCallers)
+		r.Expect("C18-K5-encoder-callers", 2)
+	}
 	// WriteTo wraps every datagram
 	for _, g := range c.P.ModuleFuncs() {
 		if pkgPathOf(g) == nc4 && g.Name() == "WriteTo" && recvNamed(g) != nil && recvNamed(g).Obj().Name() == "BroadcastRawUDPConn" {
-			var w *ssa.Call
+			// every transmission of the raw connection sends a frame built by the reviewed builder from this call's own
+			// arguments: a second frame builder (a pooled or in-place variant) is a frame layout nobody reviewed
+			var ws []*ssa.Call
 			allInstrs(g, func(in ssa.Instruction) {
 				if cl, ok := in.(*ssa.Call); ok && isInvokeOf(cl.Common(), "net", "PacketConn", "WriteTo") {
-					w = cl
+					ws = append(ws, cl)
 				}
 			})
-			if w == nil {
+			if len(ws) == 0 {
 				r.Violation("C18-K5", "nclient4.WriteTo: transmits", c.P.pos(g.Pos()), "no PacketConn.WriteTo")
 				continue
 			}
-			s := sx.Of(w.Call.Args[0]).String()
 			want := "call[dhcpv4/nclient4.udp4pkt](" + sx.Of(g.Params[1]).String() + ","
-			r.Check(strings.HasPrefix(s, want) && strings.HasSuffix(s, ",field[boundAddr]("+sx.Of(g.Params[0]).String()+"))"), "C18-K5", "nclient4.WriteTo: sends udp4pkt(b, addr, boundAddr)", c.P.ipos(w), "symx", "transmits "+s)
+			for _, w := range ws {
+				s := sx.Of(w.Call.Args[0]).String()
+				r.Check(strings.HasPrefix(s, want) && strings.HasSuffix(s, ",field[boundAddr]("+sx.Of(g.Params[0]).String()+"))"), "C18-K5", "nclient4.WriteTo: sends udp4pkt(b, addr, boundAddr)", c.P.ipos(w), "symx", "transmits "+s)
+			}
 		}
 	}
 }
